@@ -45,7 +45,24 @@ def _digits(v, default):
 # --------------------------------------------------------------------------
 # driver: run the (shadow or real) solver.multigrid with recording stubs
 # --------------------------------------------------------------------------
-def run_code(S, shape, cfg, max_events=4000):
+def _event_bound(shape, cfg):
+    """Termination bound derived from the textbook recursion: a W-cycle
+    visits level l at most 2**l times per cycle; every visit smooths at
+    most twice (pre/post) with at most three kernels.  (A fixed bound of
+    4000 events raised a false alarm for W-cycles on 1024-cell directions
+    in the thorough tier.)"""
+    nmax = 2
+    for n in shape:
+        try:
+            nmax = max(nmax, int(n))
+        except Exception:     # noqa  (symbolic shape: bounded by the case)
+            nmax = max(nmax, 1024)
+    depth = max(1, int(np.floor(np.log2(nmax))))
+    maxit = int(cfg.get('maxit', 3) or 3) if isinstance(cfg, dict) else 3
+    return 4000 + maxit*2*3*2**(depth+2)
+
+
+def run_code(S, shape, cfg, max_events=None):
     """Return (events, var) of S.multigrid on `shape` with numerics stubbed.
 
     events: ('S', kernel, shape, nu) / ('R', sc_dir, shape) / ('P', sc_dir)
@@ -54,6 +71,8 @@ def run_code(S, shape, cfg, max_events=4000):
     events = []
     core = S.core
     saved = {}
+    if max_events is None:
+        max_events = _event_bound(shape, cfg)
 
     def rec_kernel(name):
         def k(ex, ey, ez, sx, sy, sz, a, b, c, d, hx, hy, hz, nu):
